@@ -25,19 +25,25 @@ Proof. destruct a; reflexivity. Qed.
 (* expressions as token-level syntax: the text of every token is arbitrary (the parser does not look at it) *)
 Inductive operand := Num (text : list chr) | Pct (text : list chr) (w : blanks) (ptxt : list chr)
   | Paren (po pc : list chr) (w1 : blanks) (e : expr) (w2 : blanks)
+  | Call (name po pc : list chr) (a : args)                         (* f( ... ) *)
 with expr := Chain (x : operand) (r : tail)
 with tail := TNil | TCons (wb : blanks) (a : arith) (atxt : list chr) (wa : blanks) (x : operand) (r : tail)
-  | TTo (wb : blanks) (ttxt : list chr) (wa : blanks) (u : list chr) (r : tail).   (* `to` and a unit word *)
+  | TTo (wb : blanks) (ttxt : list chr) (wa : blanks) (u : list chr) (r : tail)   (* `to` and a unit word *)
+with args := ANone (w : blanks) | AOne (w1 : blanks) (e : expr) (m : more)
+with more := MEnd (wlast : blanks) | MComma (wc : blanks) (ctxt : list chr) (w1 : blanks) (e : expr) (m : more).
 Scheme operand_mut := Induction for operand Sort Prop
   with expr_mut := Induction for expr Sort Prop
-  with tail_mut := Induction for tail Sort Prop.
-Combined Scheme syntax_mut from operand_mut, expr_mut, tail_mut.
+  with tail_mut := Induction for tail Sort Prop
+  with args_mut := Induction for args Sort Prop
+  with more_mut := Induction for more Sort Prop.
+Combined Scheme syntax_mut from operand_mut, expr_mut, tail_mut, args_mut, more_mut.
 
 Fixpoint toks_operand (x : operand) : list tok :=
   match x with
   | Num t => [(NUMBER, t)]
   | Pct t w pt => (NUMBER, t) :: wst w ++ [(PERCENTAGE, pt)]
   | Paren po pc w1 e w2 => (OPEN_PAREN, po) :: wst w1 ++ toks_expr e ++ wst w2 ++ [(CLOSE_PAREN, pc)]
+  | Call name po pc a => (WORD, name) :: (OPEN_PAREN, po) :: toks_args a ++ [(CLOSE_PAREN, pc)]
   end
 with toks_expr (e : expr) : list tok := match e with Chain x r => toks_operand x ++ toks_tail r end
 with toks_tail (r : tail) : list tok :=
@@ -45,7 +51,12 @@ with toks_tail (r : tail) : list tok :=
   | TNil => []
   | TCons wb a txt wa x r' => wst wb ++ (akind a, txt) :: wst wa ++ toks_operand x ++ toks_tail r'
   | TTo wb txt wa u r' => wst wb ++ (TO, txt) :: wst wa ++ [(WORD, u)] ++ toks_tail r'
-  end.
+  end
+with toks_args (a : args) : list tok :=
+  match a with ANone w => wst w | AOne w1 e m => wst w1 ++ toks_expr e ++ toks_more m end
+with toks_more (m : more) : list tok :=
+  match m with MEnd wl => wst wl | MComma wc ct w1 e m' => wst wc ++ (COMMA, ct) :: wst w1 ++ toks_expr e ++ toks_more m' end.
+Fixpoint last_ws (m : more) : blanks := match m with MEnd wl => wl | MComma _ _ _ _ m' => last_ws m' end.
 
 Fixpoint prios (r : tail) : list nat :=
   match r with TNil => [] | TCons _ a _ _ _ r' => aprio a :: prios r' | TTo _ _ _ _ r' => 1 :: prios r' end.
@@ -63,6 +74,12 @@ Fixpoint trees_operand (x : operand) : list Grammar.tree :=
   | Num t => [Grammar.Node NUMBER [Tok NUMBER t]]
   | Pct t w pt => [Grammar.Node PERCENTAGE (Tok NUMBER t :: wsT w ++ [Tok PERCENTAGE pt])]
   | Paren po pc w1 e w2 => Tok OPEN_PAREN po :: trees_expr w1 e ++ wsT w2 ++ [Tok CLOSE_PAREN pc]
+  | Call name po pc a =>
+      [Grammar.Node FN_CALL (Grammar.Node FN_NAME [Grammar.Node WORD [Tok WORD name]] :: Tok OPEN_PAREN po ::
+         match a with
+         | ANone w => Grammar.Node FN_ARGUMENTS [] :: wsT w
+         | AOne w1 e m => Grammar.Node FN_ARGUMENTS (trees_expr w1 e ++ trees_more m) :: wsT (last_ws m)
+         end ++ [Tok CLOSE_PAREN pc])]
   end
 with trees_expr (w : blanks) (e : expr) {struct e} : list Grammar.tree :=
   match e with
@@ -76,12 +93,20 @@ with tbody (r : tail) (m : nat) {struct r} : list Grammar.tree :=
   | TNil => []
   | TCons _ _ _ _ x r' => match m with O => trees_operand x | S m' => tbody r' m' end
   | TTo _ _ _ u r' => match m with O => [Grammar.Node UNIT [Grammar.Node WORD [Tok WORD u]]] | S m' => tbody r' m' end
+  end
+with trees_more (m : more) {struct m} : list Grammar.tree :=
+  match m with
+  | MEnd _ => []
+  | MComma wc ct w1 e m' => wsT wc ++ [Tok COMMA ct] ++ trees_expr w1 e ++ trees_more m'
   end.
 
-Fixpoint need_operand (x : operand) : nat := match x with Num _ | Pct _ _ _ => 1 | Paren _ _ _ e _ => S (need_expr e) end
+Fixpoint need_operand (x : operand) : nat :=
+  match x with Num _ | Pct _ _ _ => 1 | Paren _ _ _ e _ => S (need_expr e) | Call _ _ _ a => S (S (need_args a)) end
 with need_expr (e : expr) : nat := match e with Chain x r => S (Nat.max (need_operand x) (need_tail r)) end
 with need_tail (r : tail) : nat :=
-  match r with TNil => 0 | TCons _ _ _ _ x r' => Nat.max (need_operand x) (need_tail r') | TTo _ _ _ _ r' => need_tail r' end.
+  match r with TNil => 0 | TCons _ _ _ _ x r' => Nat.max (need_operand x) (need_tail r') | TTo _ _ _ _ r' => need_tail r' end
+with need_args (a : args) : nat := match a with ANone _ => 0 | AOne _ e m => Nat.max (need_expr e) (need_more m) end
+with need_more (m : more) : nat := match m with MEnd _ => 0 | MComma _ _ _ e m' => Nat.max (need_expr e) (need_more m') end.
 
 (* ---- small facts about buffers ---- *)
 Lemma wst_length w : length (wst w) = length w. Proof. apply map_length. Qed.
@@ -109,8 +134,8 @@ Lemma count_ws_only w : count_ws (wst w) = length w.
 Proof. induction w as [|t w IH]; [reflexivity|]. change (count_ws (wst (t :: w))) with (S (count_ws (wst w))). now rewrite IH. Qed.
 Lemma kind_at_end w : kind_at (wst w) (length w) = EOF.
 Proof. unfold kind_at. rewrite <- (wst_length w). now rewrite (proj2 (nth_error_None _ _) (le_n _)). Qed.
-Lemma kind_at_operand x l : kind_at (toks_operand x ++ l) 0 = NUMBER \/ kind_at (toks_operand x ++ l) 0 = OPEN_PAREN.
-Proof. destruct x; [left|left|right]; reflexivity. Qed.
+Lemma kind_at_operand x l : kind_at (toks_operand x ++ l) 0 = NUMBER \/ kind_at (toks_operand x ++ l) 0 = OPEN_PAREN \/ kind_at (toks_operand x ++ l) 0 = WORD.
+Proof. destruct x; [left|left|right; left|right; right]; reflexivity. Qed.
 
 Definition next_kind (rest : list tok) : kind := kind_at rest (count_ws rest).
 Definition follows (rest : list tok) : Prop := next_kind rest <> PERCENTAGE /\ next_kind rest <> NUMBER /\ next_kind rest <> WORD.
@@ -176,14 +201,16 @@ Definition tight_ok (r : tail) : Prop :=
   | _ => True
   end.
 (* well-formed: a unit word is followed by a blank before * / ^ and `to` *)
-Fixpoint wf_operand (x : operand) : Prop := match x with Paren _ _ _ e _ => wf_expr e | _ => True end
+Fixpoint wf_operand (x : operand) : Prop := match x with Paren _ _ _ e _ => wf_expr e | Call _ _ _ a => wf_args a | _ => True end
 with wf_expr (e : expr) : Prop := match e with Chain x r => wf_operand x /\ wf_tail r end
 with wf_tail (r : tail) : Prop :=
   match r with
   | TNil => True
   | TCons _ _ _ _ x r' => wf_operand x /\ wf_tail r'
   | TTo _ _ _ _ r' => tight_ok r' /\ wf_tail r'
-  end.
+  end
+with wf_args (a : args) : Prop := match a with ANone _ => True | AOne _ e m => wf_expr e /\ wf_more m end
+with wf_more (m : more) : Prop := match m with MEnd _ => True | MComma _ _ _ e m' => wf_expr e /\ wf_more m' end.
 
 Lemma unit_operand fuel w u rest : unit_follows rest ->
   OperandAt (value fuel) true (length w) (wst w ++ (WORD, u) :: rest) (wsT w) [Grammar.Node UNIT [Grammar.Node WORD [Tok WORD u]]] rest.
@@ -234,6 +261,116 @@ Proof.
   f_equal. f_equal; [now rewrite app_length, wsT_length|].
   unfold mkst. f_equal. cbn [trees_operand]. rewrite map_app. fold (wsT w2). cbn [map toktree fst snd].
   rewrite <- !app_assoc. reflexivity.
+Qed.
+
+(* ---- function calls ---- *)
+Fixpoint more_ok (fuel : nat) (m : more) : Prop :=
+  match m with MEnd _ => True | MComma _ _ _ e m' => expr_spec fuel e /\ more_ok fuel m' end.
+Definition args_ok (fuel : nat) (a : args) : Prop :=
+  match a with ANone _ => True | AOne _ e m => expr_spec fuel e /\ more_ok fuel m end.
+Fixpoint more_size (m : more) : nat := match m with MEnd _ => 0 | MComma _ _ _ _ m' => S (more_size m') end.
+Lemma more_size_le m : more_size m <= length (toks_more m).
+Proof. induction m as [wl|wc ct w1 e m IH]; cbn [more_size toks_more]; [lia|]. repeat (rewrite app_length || cbn [length app]). lia. Qed.
+
+Lemma args_step_arg operationf c lf s : nth_kind s (count_skip s) 0 <> CLOSE_PAREN ->
+  args_loop operationf c (S lf) s =
+    match operationf (count_skip s) s with
+    | None => None
+    | Some (None, s1) => Some (false, s1)
+    | Some (Some skip1, s1) =>
+        match eat skip1 [COMMA] s1 with
+        | (true, s2) => args_loop operationf c lf s2
+        | (false, s2) => Some (eat skip1 [CLOSE_PAREN] (close_at c FN_ARGUMENTS s2))
+        end
+    end.
+Proof. intros H. cbn [args_loop]. destruct (nth_kind s (count_skip s) 0); congruence || reflexivity. Qed.
+
+Lemma expr_first_kind e w l : kind_at (wst w ++ toks_expr e ++ l) (length w) <> CLOSE_PAREN.
+Proof.
+  destruct e as [x r]. cbn [toks_expr]. rewrite <- app_assoc.
+  destruct x; cbn [toks_operand]; rewrite <- ?app_comm_cons; rewrite kind_at_wst; discriminate.
+Qed.
+Lemma count_ws_expr e w l : count_ws (wst w ++ toks_expr e ++ l) = length w.
+Proof. rewrite count_ws_wst. destruct e as [x r]. cbn [toks_expr]. rewrite <- app_assoc, count_ws_operand. lia. Qed.
+
+Lemma eat_close w pc rest G : eat (length w) [CLOSE_PAREN] (mkst (wst w ++ (CLOSE_PAREN, pc) :: rest) G)
+  = (true, mkst rest (G ++ wsT w ++ [Tok CLOSE_PAREN pc])).
+Proof.
+  unfold eat. cbn [kinds_match]. rewrite nth_kind_mk, kind_at_wst. cbn [fst kind_beq andb length].
+  replace (length w + 1) with (S (length w)) by lia. rewrite bumps_mk, skipn_S_wst, firstn_S_wst.
+  rewrite map_app. reflexivity.
+Qed.
+
+Definition more_rest (m : more) (pc : list chr) (rest : list tok) : list tok := toks_more m ++ (CLOSE_PAREN, pc) :: rest.
+Lemma more_rest_ok m pc rest :
+  follows (more_rest m pc rest) /\ unit_follows (more_rest m pc rest) /\ op_of (next_kind (more_rest m pc rest)) = None.
+Proof.
+  unfold more_rest. destruct m as [wl|wc ct w1 e m]; cbn [toks_more].
+  - unfold follows. rewrite next_kind_wst by discriminate. cbn [fst]. repeat split; try discriminate. apply unit_follows_close.
+  - rewrite <- app_assoc, <- app_comm_cons. unfold follows. rewrite next_kind_wst by discriminate. cbn [fst].
+    repeat split; try discriminate. unfold unit_follows. destruct wc as [|x [|y wc]]; cbn; try exact I; split; discriminate.
+Qed.
+
+Lemma args_from_arg fuel : forall m, more_ok fuel m -> forall lf A w e F0 pc rest, more_size m < lf -> expr_spec fuel e ->
+  args_loop (operation fuel) (length F0) lf (mkst (wst w ++ toks_expr e ++ more_rest m pc rest) (F0 ++ A))
+  = Some (true, mkst rest (F0 ++ [Grammar.Node FN_ARGUMENTS (A ++ trees_expr w e ++ trees_more m)] ++ wsT (last_ws m) ++ [Tok CLOSE_PAREN pc])).
+Proof.
+  induction m as [wl|wc ct w1 e' m IH]; intros Hm lf A w e F0 pc rest Hlf He;
+    (destruct lf as [|lf]; [lia|]); rewrite args_step_arg
+      by (change (count_skip (mkst ?B ?G)) with (count_ws B); rewrite count_ws_expr, nth_kind_mk; apply expr_first_kind);
+    change (count_skip (mkst ?B ?G)) with (count_ws B); rewrite count_ws_expr.
+  - destruct (more_rest_ok (MEnd wl) pc rest) as (R1 & R2 & R3).
+    rewrite (He w _ _ R1 R2 R3); unfold more_rest; cbn [toks_more].
+    rewrite count_ws_wst. cbn [count_ws]. rewrite Nat.add_0_r.
+    unfold eat at 1. cbn [kinds_match]. rewrite nth_kind_mk, kind_at_wst. cbn [fst kind_beq andb].
+    replace ((F0 ++ A) ++ trees_expr w e) with (F0 ++ (A ++ trees_expr w e)) by now rewrite app_assoc.
+    rewrite close_at_mk, eat_close. cbn [trees_more last_ws]. rewrite app_nil_r, <- !app_assoc. reflexivity.
+  - destruct (more_rest_ok (MComma wc ct w1 e' m) pc rest) as (R1 & R2 & R3).
+    rewrite (He w _ _ R1 R2 R3); unfold more_rest; cbn [toks_more].
+    rewrite <- app_assoc, <- app_comm_cons. rewrite count_ws_wst. cbn [count_ws]. rewrite Nat.add_0_r.
+    unfold eat. cbn [kinds_match]. rewrite nth_kind_mk, kind_at_wst. cbn [fst kind_beq andb length].
+    replace (length wc + 1) with (S (length wc)) by lia. rewrite bumps_mk, skipn_S_wst, firstn_S_wst.
+    destruct Hm as [He' Hm].
+    match goal with |- args_loop _ _ _ (mkst ?B ?G) = _ =>
+      replace B with (wst w1 ++ toks_expr e' ++ more_rest m pc rest) by (unfold more_rest; now rewrite <- !app_assoc);
+      replace G with (F0 ++ (A ++ trees_expr w e ++ wsT wc ++ [Tok COMMA ct]))
+        by (rewrite map_app; unfold wsT; cbn [map toktree fst snd]; now rewrite !app_assoc) end.
+    rewrite (IH Hm lf _ w1 e' F0 pc rest); [|cbn in Hlf; lia|exact He'].
+    cbn [trees_more last_ws]. rewrite <- !app_assoc. reflexivity.
+Qed.
+
+Lemma call_operand fuel name po pc a : args_ok fuel a -> operand_spec (S (S fuel)) (Call name po pc a).
+Proof.
+  intros Ha w rest _ F. unfold operandf. cbn [value]. unfold value_body.
+  cbn [toks_operand]. rewrite <- !app_comm_cons. rewrite nth_kind_mk, kind_at_wst. cbn [fst].
+  rewrite bumps_mk, firstn_wst, skipn_wst. fold (wsT w).
+  change (bump_node WORD (mkst ((WORD, name) :: ?B) ?G)) with (mkst B (G ++ [Grammar.Node WORD [Tok WORD name]])).
+  rewrite nth_kind_mk. cbn [kind_at nth_error kind_beq].
+  change (checkpoint (mkst ?B ?G)) with (length G).
+  rewrite close_at_mk.
+  change (bump (mkst ((OPEN_PAREN, po) :: ?B) ?G)) with (mkst B (G ++ [Tok OPEN_PAREN po])).
+  cbn [call_arguments]. change (checkpoint (mkst ?B ?G)) with (length G). change (buf (mkst ?B ?G)) with B.
+  set (G := ((F ++ wsT w) ++ [Grammar.Node FN_NAME [Grammar.Node WORD [Tok WORD name]]]) ++ [Tok OPEN_PAREN po]).
+  destruct a as [w0|w1 e m]; cbn [toks_args].
+  - rewrite <- app_assoc. cbn [app]. cbn [args_loop]. change (count_skip (mkst ?B ?X)) with (count_ws B).
+    rewrite count_ws_wst. cbn [count_ws]. rewrite Nat.add_0_r. rewrite nth_kind_mk, kind_at_wst. cbn [fst].
+    rewrite <- (app_nil_r G) at 2. rewrite close_at_mk, eat_close.
+    replace (G ++ [Grammar.Node FN_ARGUMENTS []]) with ((F ++ wsT w) ++ ([Grammar.Node FN_NAME [Grammar.Node WORD [Tok WORD name]]; Tok OPEN_PAREN po; Grammar.Node FN_ARGUMENTS []]))
+      by (unfold G; now rewrite <- !app_assoc).
+    rewrite <- !app_assoc. rewrite (app_assoc F (wsT w)). rewrite close_at_mk.
+    rewrite app_length, <- app_assoc. cbn [trees_operand app]. reflexivity.
+  - destruct Ha as [He Hm].
+    replace ((wst w1 ++ toks_expr e ++ toks_more m) ++ [(CLOSE_PAREN, pc)]) with (wst w1 ++ toks_expr e ++ toks_more m ++ [(CLOSE_PAREN, pc)])
+      by now rewrite <- !app_assoc.
+    rewrite <- !app_assoc. cbn [app]. fold (more_rest m pc rest).
+    rewrite <- (app_nil_r G) at 2.
+    rewrite (args_from_arg fuel m Hm _ [] w1 e G pc rest); [|pose proof (more_size_le m); unfold more_rest; rewrite !app_length; lia|exact He].
+    cbn [app].
+    replace (G ++ Grammar.Node FN_ARGUMENTS (trees_expr w1 e ++ trees_more m) :: wsT (last_ws m) ++ [Tok CLOSE_PAREN pc])
+      with ((F ++ wsT w) ++ (Grammar.Node FN_NAME [Grammar.Node WORD [Tok WORD name]] :: Tok OPEN_PAREN po ::
+              Grammar.Node FN_ARGUMENTS (trees_expr w1 e ++ trees_more m) :: wsT (last_ws m) ++ [Tok CLOSE_PAREN pc]))
+      by (unfold G; now rewrite <- !app_assoc).
+    rewrite close_at_mk. rewrite app_length, <- app_assoc. cbn [trees_operand app]. reflexivity.
 Qed.
 
 (* ---- chains ---- *)
@@ -344,33 +481,48 @@ Qed.
 Lemma all_specs :
   (forall x, forall fuel, need_operand x <= fuel -> wf_operand x -> operand_spec fuel x) /\
   (forall e, forall fuel, need_expr e <= fuel -> wf_expr e -> expr_spec fuel e) /\
-  (forall r, forall fuel, need_tail r <= fuel -> wf_tail r -> all_operands fuel r).
+  (forall r, forall fuel, need_tail r <= fuel -> wf_tail r -> all_operands fuel r) /\
+  (forall a, forall fuel, need_args a <= fuel -> wf_args a -> args_ok fuel a) /\
+  (forall m, forall fuel, need_more m <= fuel -> wf_more m -> more_ok fuel m).
 Proof.
   apply syntax_mut.
   - intros t fuel Hf _ w rest Hfo. cbn [toks_operand trees_operand app]. apply number_operand; [exact Hf|exact Hfo].
   - intros t wp pt fuel Hf _ w rest _. cbn [toks_operand trees_operand]. apply percent_operand. exact Hf.
   - intros po pc w1 e IHe w2 fuel Hf Hw. cbn [need_operand] in Hf. destruct fuel as [|fuel]; [lia|].
     apply paren_operand. apply IHe; [lia|exact Hw].
+  - intros name po pc a IHa fuel Hf Hw. cbn [need_operand] in Hf. destruct fuel as [|[|fuel]]; [lia|lia|].
+    apply call_operand. apply IHa; [lia|exact Hw].
   - intros x IHx r IHr fuel Hf [Hwx Hwr]. cbn [need_expr] in Hf. destruct fuel as [|fuel]; [lia|].
     apply chain_expr; [apply IHx; [lia|exact Hwx]|exact Hwr|apply IHr; [lia|exact Hwr]].
   - intros fuel _ _. exact I.
   - intros wb a txt wa x IHx r IHr fuel Hf [Hwx Hwr]. cbn [need_tail] in Hf. split; [apply IHx|apply IHr]; try assumption; lia.
   - intros wb txt wa u r IHr fuel Hf [_ Hwr]. cbn [need_tail] in Hf. cbn [all_operands]. apply IHr; assumption.
+  - intros w fuel _ _. exact I.
+  - intros w1 e IHe m IHm fuel Hf [Hwe Hwm]. cbn [need_args] in Hf. split; [apply IHe|apply IHm]; try assumption; lia.
+  - intros wl fuel _ _. exact I.
+  - intros wc ct w1 e IHe m IHm fuel Hf [Hwe Hwm]. cbn [need_more] in Hf. split; [apply IHe|apply IHm]; try assumption; lia.
 Qed.
 
 Lemma need_bound :
   (forall x, need_operand x <= length (toks_operand x)) /\
   (forall e, need_expr e <= S (length (toks_expr e))) /\
-  (forall r, need_tail r <= length (toks_tail r)).
+  (forall r, need_tail r <= length (toks_tail r)) /\
+  (forall a, need_args a <= S (length (toks_args a))) /\
+  (forall m, need_more m <= S (length (toks_more m))).
 Proof.
   apply syntax_mut.
   - intros t. cbn. lia.
   - intros t wp pt. cbn. lia.
   - intros po pc w1 e IHe w2. cbn [need_operand toks_operand length]. rewrite !app_length. cbn [length]. lia.
+  - intros name po pc a IHa. cbn [need_operand toks_operand length]. rewrite !app_length. cbn [length]. lia.
   - intros x IHx r IHr. cbn [need_expr toks_expr]. rewrite app_length. lia.
   - cbn. lia.
   - intros wb a txt wa x IHx r IHr. cbn [need_tail toks_tail]. rewrite !app_length. cbn [length]. rewrite !app_length. lia.
   - intros wb txt wa u r IHr. cbn [need_tail toks_tail]. repeat (rewrite app_length || cbn [length app]). lia.
+  - intros w. cbn. lia.
+  - intros w1 e IHe m IHm. cbn [need_args toks_args]. rewrite !app_length. lia.
+  - intros wl. cbn. lia.
+  - intros wc ct w1 e IHe m IHm. cbn [need_more toks_more]. repeat (rewrite app_length || cbn [length app]). lia.
 Qed.
 
 (* ---- the whole parser ---- *)
@@ -397,9 +549,10 @@ Proof.
   assert (Hc : count_ws toks = length w0).
   { unfold toks. rewrite count_ws_wst. destruct e as [x r]. cbn [toks_expr]. rewrite <- app_assoc, count_ws_operand. lia. }
   rewrite Hc. rewrite root_step. rewrite nth_kind_mk.
-  assert (Hk : kind_at toks (length w0) = NUMBER \/ kind_at toks (length w0) = OPEN_PAREN).
+  assert (Hk : kind_at toks (length w0) = NUMBER \/ kind_at toks (length w0) = OPEN_PAREN \/ kind_at toks (length w0) = WORD).
   { unfold toks. destruct e as [x r]. cbn [toks_expr]. rewrite <- app_assoc.
-    destruct x as [t|t wp pt|po pc wa e' wb]; cbn [toks_operand]; rewrite <- ?app_comm_cons; rewrite kind_at_wst; [left|left|right]; reflexivity. }
+    destruct x as [t|t wp pt|po pc wa e' wb|name po pc a]; cbn [toks_operand]; rewrite <- ?app_comm_cons; rewrite kind_at_wst;
+      [left|left|right; left|right; right]; reflexivity. }
   assert (Hend : next_kind (wst w1) = EOF) by (unfold next_kind; rewrite count_ws_only; apply kind_at_end).
   assert (Hop : operation (2 * length (buf (mkst toks [])) + 2) (length w0) (mkst toks [])
                 = Some (Some (count_ws (wst w1)), mkst (wst w1) ([] ++ trees_expr w0 e))).
@@ -414,7 +567,7 @@ Proof.
                   Some (false, mkst [] (trees_expr w0 e ++ wsT w1))).
   { rewrite root_step. rewrite nth_kind_mk, kind_at_end. rewrite bumps_mk. rewrite <- (wst_length w1), firstn_all, skipn_all. reflexivity. }
   change (buf (mkst toks [])) with toks in Hop.
-  destruct Hk as [Hk|Hk]; rewrite Hk; change (buf (mkst toks [])) with toks; rewrite Hop, Hlast; reflexivity.
+  destruct Hk as [Hk|[Hk|Hk]]; rewrite Hk; change (buf (mkst toks [])) with toks; rewrite Hop, Hlast; reflexivity.
 Qed.
 
 (* ... and the tree is the documented grammar's: inside every group, [canon] over the three priority levels *)
